@@ -27,7 +27,7 @@
   Core Lean only (linked into `kmip-model`).
 -/
 import KmipModel.Model.Registry
-import KmipModel.Model.KeyAccess
+import KmipModel.Model.Reader
 namespace Kmip.Lex
 open Kmip Kmip.Reg
 
@@ -238,6 +238,13 @@ def bytesOfStr (s : Str) : Bytes := s.map fun c => c.toUInt8
 
 /-! ## 4. registries with Go `int` keys -/
 
+/-- left padding then the bytes of `bigIntToBytes(v, padding)`: what the text writers emit for a big
+    integer (same definition as `Kmip.bigBytes` of the C14 model; repeated here so that this model
+    does not depend on the key-material files). -/
+def bigBytes (v : Int) (padding : Nat) : Bytes :=
+  let (b, padVal, padLen) := bigIntToBytes v padding
+  List.replicate padLen padVal ++ b
+
 /-- `enumtag <= 0 ⇒ enumtag = tag` (writers and readers alike). -/
 def effTag (real tag : Int) : Int := if real ≤ 0 then tag else real
 
@@ -266,7 +273,7 @@ def xmlValue (T : Tables) (R : Rfc3339) : XItem → Str
   | .int _ v => itoa v
   | .mask t m v => maskToText (maskNs T (effTag m t)) [32] (unsignedOfInt 32 v)
   | .long _ v => itoa v
-  | .big _ v => hexUp (Key.bigBytes v 1)
+  | .big _ v => hexUp (bigBytes v 1)
   | .enum t e v => enumToText (enumByV T (effTag e t)) v
   | .bool _ b => formatBool b
   | .text _ s => strOfBytes s
@@ -529,7 +536,7 @@ def jsonValue (T : Tables) (R : Rfc3339) : XItem → JVal
       .str (48 :: 120 :: hexFixedLo 16 (unsignedOfInt 64 v))
     else .num v true
   | .big _ v =>
-    if v ≥ maxJsonInt ∨ v ≤ -maxJsonInt then .str (48 :: 120 :: hexLo (Key.bigBytes v 8))
+    if v ≥ maxJsonInt ∨ v ≤ -maxJsonInt then .str (48 :: 120 :: hexLo (bigBytes v 8))
     else .num v true
   | .enum t e v => .str (enumToText (enumByV T (effTag e t)) v)
   | .bool _ b => .bool b
